@@ -147,6 +147,19 @@ Proof.
       * intros _. now left.
 Qed.
 
+(* every established connection is answered, by exactly one of accept / reject *)
+Theorem established_answered_once :
+  let os := snd (do_established L m p c t lst f) in
+  (In (CallAccept c t) os \/ In (CallReject c t) os) /\ ~ (In (CallAccept c t) os /\ In (CallReject c t) os).
+Proof.
+  pose proof established_decision as [A B]. cbv zeta in *.
+  destruct (dir_full L m lst); destruct (snd (st_on_established (state_of m p) c)).
+  - split; [right; apply B; now left|]. intros [H _]. apply A in H. destruct H; discriminate.
+  - split; [right; apply B; now left|]. intros [H _]. apply A in H. destruct H; discriminate.
+  - split; [left; apply A; split; reflexivity|]. intros [_ H]. apply B in H. destruct H; discriminate.
+  - split; [right; apply B; now right|]. intros [H _]. apply A in H. destruct H; discriminate.
+Qed.
+
 (* a rejected connection reserves nothing: both counted sets are exactly what they were *)
 Theorem reject_reserves_nothing :
   In (CallReject c t) (snd (do_established L m p c t lst f)) ->
